@@ -6,6 +6,7 @@ CONSTANTS
   MaxUid = 1
   MaxCode = 1
   NFlagSets = 1
+  SyncLit = FALSE
   Kinds = {"SELECT", "IDLE", "NOOP", "EXPUNGE"}
   Greetings = {"PREAUTH"}
   SimDepth = 0
